@@ -296,8 +296,9 @@ class IMMachine(FormatMachine):
             CTX.probe("im.image_built_in_place_on_defaults")
             want = dict((f, op["attrs"][f]) for f in inplace if f in op["attrs"])
             got = dict((f, attrs[f]) for f in want)
-            if want != got and self.watching("C02"):
-                raise Violation("C02", "C02.object_holds_what_was_put_in", "in-place-built-image-differs", {"diff": first_diff(want, got)})
+            P = "C09" if self.cfg.get("focus") == "C09" else "C02"         # (both are identity attributes / what identity is judged by)
+            if want != got and self.watching(P):
+                raise Violation(P, "%s.object_holds_what_was_put_in" % P, "in-place-built-image-differs", {"diff": first_diff(want, got)})
         s.pool[iid] = img
         s.model["imgs"][iid] = attrs
         return "ok"
